@@ -94,6 +94,8 @@ def check(case: Dict[str, Any]) -> CaseInfo:
     classes.append("parse_only" if case["parse_only"] else "full_load")
     if case.get("big"):
         classes.append("positions_above_127_with_small_correlation_ids")
+    if case.get("huge_corr"):
+        classes.append("correlation_ids_beyond_2**53")
     if len(case["ranks"]) > 1:
         classes.append("multi_rank")
     return CaseInfo(nontrivial=nontrivial, classes=classes)
@@ -108,6 +110,18 @@ def c02_case(draw):
     case = draw(sim_case(o, max_ranks=3))
     case["big"] = big
     case["parse_only"] = parse_only
+    # correlation ids of a 64-bit counter beyond 2**53: consecutive ids there are distinct integers but equal doubles
+    huge = draw(st.sampled_from([False] * 7 + [True]))
+    if huge:
+        off = 2**53 - 1000
+        for rd in case["ranks"]:
+            for e in rd["events"]:
+                a = e.get("args")
+                if isinstance(a, dict):
+                    for key in ("correlation", "wait_on_cuda_event_record_corr_id"):
+                        if isinstance(a.get(key), int) and a[key] > 0:
+                            a[key] += off
+    case["huge_corr"] = huge
     return case
 
 
